@@ -32,12 +32,12 @@ LEAN_MODULES = {
     "C03": ["TFV.Properties.EA", "TFV.Properties.Src.Engine"],
     "C04": ["TFV.Properties.Rng"],
     "C05": ["TFV.Properties.EA"],
-    "C06": ["TFV.Properties.BinOps", "TFV.Properties.Runs"],
-    "C07": ["TFV.Properties.DE", "TFV.Properties.Runs", "TFV.Properties.Src.BoundsControl"],
+    "C06": ["TFV.Properties.BinOps", "TFV.Properties.Runs", "TFV.Properties.Src.BinKernels"],
+    "C07": ["TFV.Properties.DE", "TFV.Properties.Runs", "TFV.Properties.Src.BoundsControl", "TFV.Properties.Src.Binomial"],
     "C08": ["TFV.Properties.Tree", "TFV.Properties.TreeCR", "TFV.Properties.Runs"],
     "C09": ["TFV.Properties.Tree", "TFV.Properties.TreeCR", "TFV.Properties.Src.TreeIdx", "TFV.Properties.Src.CommonRegion"],
     "C10": ["TFV.Properties.Gray"],
-    "C11": ["TFV.Properties.Select", "TFV.Properties.Src.Bsearch", "TFV.Properties.Src.Tournament"],
+    "C11": ["TFV.Properties.Select", "TFV.Properties.Src.Bsearch", "TFV.Properties.Src.Tournament", "TFV.Properties.Src.Sampling"],
     "C12": ["TFV.Properties.Net"],
     "C13": ["TFV.Properties.Net", "TFV.Properties.Gray"],
     "C14": ["TFV.Properties.SelfConf"],
@@ -55,9 +55,10 @@ SRC_KERNELS = {
     "C01": ["TheFittest_replace", "TheFittest_update"],
     "C02": ["TheFittest_replace", "TheFittest_update"],
     "C03": ["TheFittest_replace", "TheFittest_update", "termination_check", "get_remains_calls"],
-    "C07": ["bounds_control"],
+    "C06": ["flip_mutation", "binomialGA", "one_point_crossover", "two_point_crossover", "uniform_crossover"],
+    "C07": ["bounds_control", "binomial"],
     "C09": ["find_end_subtree_from_i", "find_id_args_from_i", "find_first_difference_between_two", "common_region_two_trees"],
-    "C11": ["binary_search_interval", "check_for_value", "argsort_k", "tournament_selection"],
+    "C11": ["binary_search_interval", "check_for_value", "argsort_k", "tournament_selection", "sattolo_shuffle", "random_sample", "random_weighted_sample"],
     "C16": ["get_n_jobs"],
 }
 
